@@ -207,13 +207,14 @@ var tmMutations = []string{"none", "none", "none", "time_future", "time_past", "
 
 func (TMScenario) Generate(rng *rand.Rand, focus, tier string) kernel.Plan {
 	cfg := map[string]int64{
-		"keyseed": rng.Int63(),
-		"vals":    1 + rng.Int63n(7),
-		"tp_min":  []int64{3, 30, 600, 20160, 20160}[rng.Intn(5)],
-		"trust_n": []int64{1, 1, 2, 1, 3}[rng.Intn(5)],
-		"rev47":   kernel.B2I(kernel.Chance(rng, 0.2)),
-		"start_h": []int64{1, 5, 40, 46, 300}[rng.Intn(5)],
-		"special": kernel.B2I(focus == "C13" || focus == "C19" || kernel.Chance(rng, 0.3)),
+		"keyseed":  rng.Int63(),
+		"vals":     1 + rng.Int63n(7),
+		"tp_min":   []int64{3, 30, 600, 20160, 20160}[rng.Intn(5)],
+		"trust_n":  []int64{1, 1, 2, 1, 3}[rng.Intn(5)],
+		"rev47":    kernel.B2I(kernel.Chance(rng, 0.2)),
+		"rev_kind": kernel.B2I((focus == "C13" || focus == "C19") && kernel.Chance(rng, 0.5) || kernel.Chance(rng, 0.1)) * (1 + rng.Int63n(7)),
+		"start_h":  []int64{1, 5, 40, 46, 300}[rng.Intn(5)],
+		"special":  kernel.B2I(focus == "C13" || focus == "C19" || kernel.Chance(rng, 0.3)),
 	}
 	cfg["trust_d"] = []int64{3, 3, 3, 2, 4}[cfg["trust_n"]%5]
 	if cfg["trust_n"] == 2 {
@@ -308,6 +309,11 @@ func newTMWorld(cfg map[string]int64, rec *kernel.Rec) (*tmWorld, error) {
 	rev := uint64(3)
 	if cfg["rev47"] == 1 {
 		rev = 47
+	}
+	if k := cfg["rev_kind"]; k > 0 {
+		// revision numbers whose big-endian bytes start with characters that also occur in the key prefixes
+		// ("consensusStates/", "clients/"), contain separators, or have the top bit set
+		rev = []uint64{3, 0x6300000000000001, 0x2f00000000000000, 0x7300000000000005, 0x7400000000000047, 1 << 63, 0x636f6e73656e7375, 0x2f2f2f2f2f2f2f2f}[k%8]
 	}
 	w.stub = &tmStub{chainID: fmt.Sprintf("peer-%d", rev), rev: rev, blocks: map[int64]*stubBlock{}}
 	for i := 0; i < 12; i++ {
